@@ -188,6 +188,14 @@ def build_units_probes(b):
         list(ex.map(one, UNIT_CFGS))
     return outdir
 
+# per-property multipliers of the case counts registered in props/*.cpp, calibrated so that a quick check executes for roughly 15-30 s
+# on 8 shards and a thorough one for roughly 5-12 min on 16 shards (bounded by case count, never by a clock)
+TIER_SCALE = {
+    'C01': (6, 6), 'C02': (10, 12), 'C03': (20, 20), 'C04': (3, 3), 'C05': (1.5, 2), 'C06': (5, 5), 'C07': (15, 15), 'C08': (10, 10),
+    'C09': (2.5, 3), 'C10': (2, 3), 'C11': (8, 8), 'C12': (1.5, 2), 'C13': (1, 1), 'C14': (1, 1), 'C15': (0.7, 1), 'C16': (5, 8),
+    'C17': (8, 10), 'C18': (1, 1), 'C19': (8, 8), 'C20': (20, 20),
+}
+
 def all_props():
     return sorted(os.path.basename(p)[:-4] for p in glob.glob(os.path.join(VERIF, 'props', 'C??.cpp')))
 
@@ -267,6 +275,7 @@ def check(pid, tier, repo, seed, scale, clauses, jobs, keep=False):
     shutil.rmtree(rundir, ignore_errors=True)
     os.makedirs(rundir)
     nshards = min(jobs, 16 if tier == 'thorough' else 8)
+    scale = scale * TIER_SCALE.get(pid, (1, 1))[1 if tier == 'thorough' else 0]
     env = san_env(rundir)
     procs = []
     for k in range(nshards):
